@@ -180,6 +180,22 @@ def batchObsJson (S : State) : Json :=
           else Json.null
       obj [("rewards", per (·.rewards)), ("feedbacks", per (·.feedbacks))]) (cutBatches sizes S.stream)
 
+/-- for every Noise step of the chain: do the explicit preconditions of `noise_scalar_aligned` hold for the stream that reaches
+it (in the model), and is the model's output of that step aligned with its input -/
+def noiseHyps (cfg : Cfg) : List Step → State → Nat → List Json
+  | [], _, _ => []
+  | st :: rest, S, i =>
+    let next := runStep cfg st S
+    let here := match st with
+      | .noise _ na _ =>
+        [obj [("i", ofNat i),
+              ("hyp", Json.bool (cfg.fixNoiseLogged && cfg.fixNoiseFeedbacks && injNoiser na && noiseScalarHypB S.stream)),
+              ("aligned", Json.bool (match next with | .ok S' => alignedStreamB S.stream S'.stream | .error _ => true))]]
+      | _ => []
+    match next with
+    | .ok S' => here ++ noiseHyps cfg rest S' (i + 1)
+    | .error _ => here
+
 /-- request `{"stream":[…], "chain":[…], "cfg":{…}}` → the model's final stream (the same
 observables the harness extracts from the real pipeline), `hyp` (the hypotheses of
 `chain_aligned` hold for this case) and `spec` (the model's output is aligned with its input). -/
@@ -193,7 +209,12 @@ def handle (req : Json) : Except String Json := do
                 ("denseOnly", ofList (fun a => Json.bool (denseOnly a)) rows),
                 ("wf", ofList (fun a => Json.bool (wfNoLazy a)) rows),
                 ("distinct", Json.bool (distinctB rows)),
-                ("pairwiseNe", Json.bool (pairwiseNeB rows))]
+                ("pairwiseNe", Json.bool (pairwiseNeB rows)),
+                ("isNum", ofList (fun a => Json.bool (isNum a)) rows),
+                ("cycleSource", ofList (fun j => ofNat (cycleSource rows.length j)) (List.range rows.length)),
+                ("cycleRotatesAt", ofList (fun t => Json.bool (cycleRotatesAt 1 t)) (List.range 3)),
+                ("consts", obj [("finalize", ofList Json.str finalizeReprModes), ("headers", ofList Json.str sparsifyHeaders),
+                                ("seed", ofNat densifySeed), ("shift", ofNat cycleShift)])]
   let stream ← (← arr (← field req "stream")).mapM parseInter
   -- op "table": the look-up table a Densify object holds after it has filtered `stream` (having been asked for `prior` before)
   if (match req.getObjVal? "op" with | .ok (Json.str "table") => true | _ => false) then
@@ -221,6 +242,7 @@ def handle (req : Json) : Except String Json := do
                               ("sizes", match S.sizes with | some l => ofList ofNat l | none => Json.null),
                               ("batch_obs", batchObsJson S)]),
                ("hyp", Json.bool hyp),
+               ("noise_hyps", Json.arr (noiseHyps cfg chain S0 0).toArray),
                ("spec", Json.bool (alignedStreamB stream S.stream))])
 
 end Coba.C10.Driver
